@@ -904,6 +904,18 @@ package rosmar
 //@   ensures [C12:PutDDoc.views-never-updated-in-place] stmtCount("update", "views") == 0 && stmtCount("upsert", "views") == 0 && stmtCount("update", "designDocs") == 0 && stmtCount("upsert", "designDocs") == 0
 //@   ensures [C20:PutDDoc.unlocked] any: nolocks()
 //@
+// The view read-out: one SELECT over this view's index rows joined with their documents, ordered by emitted key and
+// then document id (both descending when asked), optionally limited. Collation of the keys is SQLite's (not reached).
+//@ fn (*Collection).getViewRows
+//@   requires view != nil && params != nil
+//@   loop 1 invariant [C12:getViewRows.rows-loop] true
+//@   ensures [C12:getViewRows.one-select]   count("sql") <= 1 && (err == nil ==> cursorCount() == 1)
+//@   ensures [C12:getViewRows.order]        cursorCount() == 1 ==> cursorOrderText(0) == (if old(params.Descending) then "mapped.key desc,documents.key desc" else "mapped.key,documents.key")
+//@   ensures [C11,C12:getViewRows.join]     cursorCount() == 1 ==> cursorJoinText(0) == "mapped join documents on documents.id=mapped.doc"
+//@   ensures [C11,C12:getViewRows.this-view] cursorCount() == 1 ==> cursorHasConjunct(0, "(mapped.view=$VIEW)")
+//@   ensures [C12:getViewRows.reads-only]   db == old(db)
+//@   ensures [C20:getViewRows.unlocked]     any: nolocks()
+//@
 //@ fn (*Collection).updateView
 //@   let v = callretval("Collection.findView", 0)
 //@   loop 1001 invariant [C12:updateView.rows-loop] true
